@@ -262,10 +262,12 @@ def select_cases(cases: list[dict[str, Any]], tier: str, seed: int) -> tuple[lis
         inproc, cli = non_ctrlc, idx
     else:
         def res_sel(c: dict[str, Any]) -> bool:
-            on = sum(bool(c[k]) for k in ("art", "db", "lock", "hooks"))
-            return on in (0, 1, 4) or (on == 3 and not c["lock"]) or (on == 2 and c["art"] and c["db"])
+            r = (c["art"], c["db"], c["lock"], c["hooks"])
+            # all on, all off, db only, everything but the db
+            return r in ((True, True, True, True), (False, False, False, False), (False, True, False, False),
+                         (True, False, True, True))
 
-        # quick: the plain script over all 16 resource sets; scanner kinds over 7 of them
+        # quick: the plain script over all 16 resource sets; scanner kinds over 4 of them
         inproc = [i for i in non_ctrlc if cases[i]["c"]["kind"] == "Script" or res_sel(cases[i]["c"])]
         rnd = random.Random(seed)
         full = [i for i in ctrlc if all(cases[i]["c"][k] for k in ("art", "db", "lock", "hooks"))]
@@ -273,7 +275,7 @@ def select_cases(cases: list[dict[str, Any]], tier: str, seed: int) -> tuple[lis
         some_other = [i for i in non_ctrlc if cases[i]["c"]["art"] and cases[i]["c"]["db"] and cases[i]["c"]["lock"]
                       and cases[i]["c"]["hooks"] and cases[i]["c"]["where"] == "pre"
                       and cases[i]["c"]["point"] in ("Main", "PreHook", "PostHook", "DbOpen", "DbClose")]
-        cli = full + sorted(rnd.sample(rest, min(20, len(rest)))) + sorted(rnd.sample(some_other, min(14, len(some_other))))
+        cli = full + sorted(rnd.sample(rest, min(10, len(rest)))) + sorted(rnd.sample(some_other, min(10, len(some_other))))
     a = [{"id": i, "c": cases[i]["c"], "expect": cases[i]["expect"]} for i in inproc]
     b = [{"id": CLI_BASE + i, "c": cases[i]["c"], "expect": cases[i]["expect"]} for i in cli]
     return a, b
@@ -427,7 +429,7 @@ def run(tier: str, seed: int) -> Report:
     rep.exhaustive = tier == "thorough"
     rep.extra["exhaustive_space"] = (
         "thorough: all 1696 TLC cases in cli mode (incl. all 208 real-SIGINT cases) and all 1488 non-SIGINT cases "
-        "again in inproc mode; quick: Script kind x all 16 resource sets, scanner kinds x 8 resource sets (inproc), "
+        "again in inproc mode; quick: Script kind x all 16 resource sets, scanner kinds x 4 resource sets (inproc), "
         "all SIGINT cases with every resource on + seeded samples (cli)")
     rep.extra["deviations_modelled"] = DEV_NAMES
     return rep
